@@ -1190,7 +1190,21 @@ class QMI_Vxi11Transport(QMI_Transport):
             self._instr = vxi11.Instrument(self._host)
             self._safe_instr.open()
         except vxi11.vxi11.Vxi11Exception as err:
+            self._release_client()
             raise QMI_InstrumentException("Error attempting to open VXI11 transport to {}".format(self._host)) from err
+        except OSError:
+            self._release_client()
+            raise
+
+    def _release_client(self) -> None:
+        """Close the RPC connection of a VXI-11 instrument object whose link could not be created.
+
+        `vxi11.Instrument.open()` connects to the device first and creates the link afterwards; when creating the link
+        fails, the library leaves the connection open (its `close()` only acts when a link exists)."""
+        client = getattr(self._instr, "client", None)
+        if client is not None:
+            client.close()
+            self._safe_instr.client = None
 
     def close(self) -> None:
         _logger.debug("Closing %s", self)
